@@ -161,3 +161,39 @@ Theorem C19_close_keeps_last_file_and_cursor : forall st,
   w_cur (close_writer st) = w_cur st /\ w_gi (close_writer st) = w_gi st.
 Proof. exact close_keeps_last. Qed.
 Print Assumptions C19_close_keeps_last_file_and_cursor.
+
+(* ---- every call of the public API, in any state reachable by any mixed history (PyInv is kept by
+   the C01_api_history theorems): an accepted call returns the Spec cursor -- one past the highest index written --
+   and the successor state is again in the invariant (whose p_next component is that cursor) *)
+From DRF Require Import Proofs.PyApiHistory.
+
+Theorem C19_api_call_gapped : forall c ps s op, vcfg c -> c_chunk c = true -> c_cont c = false ->
+  PyInv (refines c) ps s -> api_arg_ok op ->
+  PyInv (refines c) (api_state c ps op) (api_spec_gapped c s op) /\
+  (fst (fst (api_call c ps op)) = OK -> snd (fst (api_call c ps op)) = s_cur (api_spec_gapped c s op)).
+Proof. exact api_step_gapped. Qed.
+Print Assumptions C19_api_call_gapped.
+
+Theorem C19_api_call_continuous_unchunked : forall c ps s op, vcfg c -> c_chunk c = false -> c_cont c = true ->
+  PyInv (refines_u c) ps s -> api_arg_ok op ->
+  PyInv (refines_u c) (api_state c ps op) (api_spec_cont c s op) /\
+  (fst (fst (api_call c ps op)) = OK -> snd (fst (api_call c ps op)) = s_cur (api_spec_cont c s op)).
+Proof.
+  intros c ps s op Hc Hch Hco. apply (api_step_cont c (refines_u c)).
+  - intros st s0 H. exact (ru_cur _ _ _ H).
+  - apply unchunked_R_call; assumption.
+  - exact Hco.
+Qed.
+Print Assumptions C19_api_call_continuous_unchunked.
+
+Theorem C19_api_call_continuous_chunked : forall c ps s op, vcfg c -> c_chunk c = true -> c_cont c = true ->
+  PyInv (refines c) ps s -> api_arg_ok op ->
+  PyInv (refines c) (api_state c ps op) (api_spec_cont c s op) /\
+  (fst (fst (api_call c ps op)) = OK -> snd (fst (api_call c ps op)) = s_cur (api_spec_cont c s op)).
+Proof.
+  intros c ps s op Hc Hch Hco. apply (api_step_cont c (refines c)).
+  - intros st s0 (_ & H & _). exact H.
+  - apply chunked_R_call; assumption.
+  - exact Hco.
+Qed.
+Print Assumptions C19_api_call_continuous_chunked.
